@@ -181,6 +181,11 @@ class Tbl:
     def abs_len(self):
         return 0 if self._empty else NRows(1, self.pop)
 
+    def abs_getitem(self, it, k):
+        if k in ("start", "end"):
+            return getattr(self, k)               # table["start"] is table.start
+        raise Undecided(f"subscript of Tbl: {k!r}")
+
 
 def run_idx(prog, mode, have_s, have_e, mono):
     W.reset()
